@@ -126,9 +126,13 @@ def options(kind: str, ad, tier: str) -> list:
     if t == 'status':
         return [1, 0, True, False, 1.0]
     if t == 'mixed':
+        # (texts that only look like numbers to float(): they are texts and must come back as texts; plain decimal
+        # numerals such as '12' or '12.5' are converted to numbers by design and stay outside the alphabet)
         if ad.mdim:
-            return [[1.5], [[1.5, 2.5]], [[1, 2], [3, 4]], ['a'], [7], [], [[1, 2.5]], 'scalar']
-        return [[1, 2], [1.5, 2], ['near', 'far'], [1, 2.5], 3, [], [float(i) for i in range(128)]]
+            return [[1.5], [[1.5, 2.5]], [[1, 2], [3, 4]], ['a'], [7], [], [[1, 2.5]], 'scalar', ['INF'], ['1E5'], ['NAN'],
+                    ['-2e-3']]
+        return [[1, 2], [1.5, 2], ['near', 'far'], [1, 2.5], 3, [], [float(i) for i in range(128)], ['INF'], ['1E5', 'NAN'],
+                ['Infinity', 'far']]
     if t == 'enc':
         return [1, 0, True, 'yes', 'N']
     raise ValueError(f"{kind}.{ad.kw}: {t}")
@@ -189,7 +193,12 @@ def build_spec(kind: str, mode: str, ctx: Any, tier: str) -> tuple[dict, dict]:
             menu = [('set', d0)] + [('set', o) for o in opts if o != d0] + [('unset', None)]
         else:
             menu = [('unset', None), ('set', d0)] + [('set', o) for o in opts if o != d0]
+        if [] in opts and ad.units_settable:
+            menu.append(('set+units', []))      # an empty list together with units: still "no value"
         how, v = ctx.choose(f'a:{ad.kw}', menu)
+        if how == 'set+units':
+            assigned[ad.kw] = v
+            units[ad.kw] = 'm'
         if how == 'set':
             assigned[ad.kw] = v
             if ad.units_settable:
